@@ -157,6 +157,53 @@ func accessesOf(p *core.Prog, fi *core.FuncInfo, named *types.Named, out map[str
 		}
 		out[fv.Name()] = append(out[fv.Name()], a)
 	}
+	// aliases: a local assigned the map/slice/pointer value of a shared field refers to the
+	// same storage; using the local is an access of the field (x := s.m under the lock,
+	// `range x` after the unlock)
+	aliasOf := map[types.Object]*types.Var{}
+	ast.Inspect(fi.Decl.Body, func(n ast.Node) bool {
+		as, ok := n.(*ast.AssignStmt)
+		if !ok || len(as.Lhs) != len(as.Rhs) {
+			return true
+		}
+		for i, r := range as.Rhs {
+			sel, ok := ast.Unparen(r).(*ast.SelectorExpr)
+			if !ok || !isT(sel.X) {
+				continue
+			}
+			sl := info.Selections[sel]
+			if sl == nil {
+				continue
+			}
+			fv, ok := sl.Obj().(*types.Var)
+			if !ok || !fv.IsField() {
+				continue
+			}
+			switch fv.Type().Underlying().(type) {
+			case *types.Map, *types.Slice:
+				if o := defOrUse(info, as.Lhs[i]); o != nil {
+					aliasOf[o] = fv
+				}
+			}
+		}
+		return true
+	})
+	recordAlias := func(id *ast.Ident, st *core.State) {
+		fv := aliasOf[info.Uses[id]]
+		if fv == nil {
+			return
+		}
+		if constructionEnd != token.NoPos && id.Pos() < constructionEnd {
+			return
+		}
+		a := fieldAccess{Fn: fi, Pos: id.Pos(), Locked: map[string]bool{}}
+		for h := range st.Held {
+			if strings.HasPrefix(h, "lock:") {
+				a.Locked[strings.TrimPrefix(h, "lock:")] = true
+			}
+		}
+		out[fv.Name()] = append(out[fv.Name()], a)
+	}
 	seenSel := map[*ast.SelectorExpr]bool{}
 	var lits []*ast.FuncLit
 	defer func() {
@@ -174,6 +221,9 @@ func accessesOf(p *core.Prog, fi *core.FuncInfo, named *types.Named, out map[str
 						seenSel[sel] = true
 						record(sel, st)
 					}
+					if id, ok := x.(*ast.Ident); ok {
+						recordAlias(id, st)
+					}
 					return true
 				})
 			})
@@ -190,6 +240,9 @@ func accessesOf(p *core.Prog, fi *core.FuncInfo, named *types.Named, out map[str
 			if sel, ok := x.(*ast.SelectorExpr); ok && isT(sel.X) && !seenSel[sel] {
 				seenSel[sel] = true
 				record(sel, st)
+			}
+			if id, ok := x.(*ast.Ident); ok {
+				recordAlias(id, st)
 			}
 			return true
 		})
@@ -691,7 +744,7 @@ func c17selftest(st *core.Prog, res *core.Result) {
 			res.OKTrivial("SELF", "selftest|c17."+name, "-", "captured-variable rule gives "+string(got)+" as expected")
 		}
 	}
-	for _, tn := range []string{"Guarded", "Unguarded"} {
+	for _, tn := range []string{"Guarded", "Unguarded", "Aliased"} {
 		named := st.Named(rel, tn)
 		if named == nil {
 			res.Fail("self-test type %s missing", tn)
@@ -706,7 +759,7 @@ func c17selftest(st *core.Prog, res *core.Result) {
 			}
 		}
 		want := core.Discharged
-		if tn == "Unguarded" {
+		if tn == "Unguarded" || tn == "Aliased" {
 			want = core.Violated
 		}
 		if got != want {
